@@ -162,10 +162,16 @@ def ensure_harness(variant="asan"):
     return exe
 
 
+def lean_lock():
+    """one lock per working copy: everything that writes OR reads .olean files of lean/ (lake build, the axiom audit, leanchecker) runs under it --
+    a check that regenerates a table makes another check's `lake build` rewrite object files, and an audit reading them meanwhile saw nothing"""
+    return Lock(os.path.join(CACHE, "locks", "lean-%s.lock" % hashlib.sha256(LEAN_DIR.encode()).hexdigest()[:8]))
+
+
 def lean_build(targets=None, timeout=3600):
     """lake build; returns (ok, log)."""
     cmd = ["lake", "build"] + (targets or [])
-    with Lock(os.path.join(CACHE, "locks", "lean-%s.lock" % hashlib.sha256(LEAN_DIR.encode()).hexdigest()[:8])):   # one lock per working copy
+    with lean_lock():
         p = run(cmd, cwd=LEAN_DIR, check=False, timeout=timeout)
     return p.returncode == 0, p.stdout
 
